@@ -219,6 +219,7 @@ class Ctx:
         self.hooks = {}
         self.keep = []         # keep z3 refs alive (ids are reused otherwise)
         self.side = []         # undecided definedness side conditions of every executed operation (witness-search heuristic)
+        self.key_uses = []         # (primitive, application number, key word 0, key word 1) of every random_bits / random_split
         self.exp_overflow = None   # C18 only: exp(t) is +inf above this threshold (float64 overflow), see sexp_ovf
         self.ite_cap = 6       # If-nodes lifted out of one exponent at most (2^n cases); the bijection harnesses raise it
 
@@ -1632,8 +1633,12 @@ class Interp:
             words = 2
         out = np.empty(kb + oshape + ((2,) if words == 2 else ()), dtype=object)
         tag = f"{p}_{e.params.get('bit_width', '')}_{'x'.join(map(str, oshape))}"
+        self._rand_calls = getattr(self, "_rand_calls", 0) + 1
         for bi in np.ndindex(kb):
             k0, k1 = (toz(split(v)[0]) for v in keys[bi])
+            if p in ("random_bits", "random_split"):
+                # key hygiene: which key is consumed by which draw / split (one entry per primitive application and key)
+                ctx.key_uses.append((p, self._rand_calls, k0, k1))
             args = [k0, k1] + [toz(x) if not isinstance(x, Fraction) else toreal(x) for x in (extra if p == "random_fold_in" else [])]
             for oi in np.ndindex(oshape):
                 for w in range(words):
@@ -2406,3 +2411,17 @@ def model_floats(m, arr):
         v = model_value(m, split(arr[idx])[0])
         out[idx] = float(v) if v is not None else 0.0
     return out
+
+
+def reused_keys(ctx, since=0):
+    """keys consumed by two DIFFERENT primitive applications (JAX: a key must be used once - drawn from OR split, never both, never twice).
+    Terms are compared syntactically: keys derived by different split slots are different uninterpreted applications."""
+    seen = {}
+    dup = []
+    for p, n, k0, k1 in ctx.key_uses[since:]:
+        kid = (k0.get_id(), k1.get_id())
+        if kid in seen and seen[kid][1] != n:
+            dup.append((seen[kid][0], p, k0, k1))
+        else:
+            seen.setdefault(kid, (p, n))
+    return dup
